@@ -1,14 +1,16 @@
 //! Checks of the store group: C08 C09 C10 C11 C12.
+mod fx;
+mod ord;
 mod props;
 
 fn main() {
     let ctx = engine::Ctx::from_args();
     match ctx.id.as_str() {
-        // "C08" => props::c08::run(ctx),
-        // "C09" => props::c09::run(ctx),
-        // "C10" => props::c10::run(ctx),
-        // "C11" => props::c11::run(ctx),
-        // "C12" => props::c12::run(ctx),
+        "C08" => props::c08::run(ctx),
+        "C09" => props::c09::run_check(ctx),
+        "C10" => props::c10::run(ctx),
+        "C11" => props::c11::run(ctx),
+        "C12" => props::c12::run(ctx),
         other => engine::harness_error(&format!("property {other} is not served by verif-store")),
     }
 }
